@@ -99,7 +99,8 @@ class Independent(e2e.E2E):
         for i, Lb in enumerate(lens):
             alone = bv.SymBytes(stream.items[off + skip:off + skip + Lb])        # the packet itself (without its record prefix), from a bytes source
             off += skip + Lb
-            ys, end = run_gen(self.defn2.packet_generator(alone, parse_bad_pkts=parse_bad, yield_unrecognized_packet_errors=yield_unrec), 2)
+            kw = {"root_container_name": templates.root_of(p["template"])} if p.get("root_mode") == "gen" else {}
+            ys, end = run_gen(self.defn2.packet_generator(alone, parse_bad_pkts=parse_bad, yield_unrecognized_packet_errors=yield_unrec, **kw), 2)
             mine = by_index.get(i)
             if end.startswith("exc"):
                 # a packet that fails alone ends the stream at its position: nothing at or after i is yielded
@@ -235,10 +236,10 @@ def make(job):
     cls = {"e2e": e2e.E2E, "independent": Independent, "interleave": Interleave, "headers-only": HeadersOnly, "twin": e2e.Twin}[job["h"]]
     h = cls(job)
     h.lib = lib
-    h.defn = bv.symbolize_definition(lib.definitions.XtcePacketDefinition.from_xtce(io.BytesIO(xml)))
-    h.defn2 = bv.symbolize_definition(lib.definitions.XtcePacketDefinition.from_xtce(io.BytesIO(xml)))
+    h.defn = bv.symbolize_definition(e2e.load_defn(lib.definitions, xml, p))
+    h.defn2 = bv.symbolize_definition(e2e.load_defn(lib.definitions, xml, p))
     h.snap_before = structural.public_state(h.defn)
-    h.spec = specxtce.Spec(xml)
+    h.spec = specxtce.Spec(xml, root=templates.root_of(p["template"]))
     return h
 
 
@@ -255,6 +256,8 @@ def jobs(tier):
                 J("independent", "indep-T4-file-r7-skip4", "T4", [9, 10, 9], flagsets=(3,), source="file", read=7, skip=4),
                 # MANY packets in one stream (13, eleven of them of the wrong length in a row): the n-th packet is treated like the first
                 J("independent", "indep-TI-many", "TI", [10] * 11 + [9, 10], flagsets=(0, 1)),
+                # the root container named in the generator call only: naming it must not change the definition (nor a later default-root generator)
+                J("independent", "indep-R|T4-gen", "R|T4", [9, 10], flagsets=(3,), root_mode="gen"),
                 J("interleave", "interleave-T6", "T6", [12, 12], concrete_bytes=[0, 6, 7, 8, 9, 10], apid=6), J("headers-only", "headers-only-T4", "T4", [9, 10, 8])]
     return [J("e2e", "stream-T4", "T4", [9, 10, 9, 10], flagsets=(0, 3)), J("e2e", "stream-T6", "T6", [12, 11, 12]), J("e2e", "stream-T5", "T5", [9, 8, 9], flagsets=(0, 1)),
             J("independent", "indep-T4", "T4", [10, 9, 10]), J("independent", "indep-T8", "T8", [8, 8, 8]), J("independent", "indep-Blookup", "B|lookup|0", [14, 14], flagsets=(1,)), J("independent", "indep-T6", "T6", [12, 12, 11], flagsets=(0, 3)),
@@ -262,6 +265,7 @@ def jobs(tier):
             J("interleave", "interleave-T4", "T4", [9, 10], concrete_bytes=[0, 2, 3]),
             J("independent", "indep-T4-file-r7-skip4", "T4", [9, 10, 9, 10], flagsets=(0, 3), source="file", read=7, skip=4),
             J("independent", "indep-TI-many", "TI", [10] * 11 + [9, 10] + [8] * 12 + [9], flagsets=(0, 1, 2, 3)),
+            J("independent", "indep-R|T4-gen", "R|T4", [9, 10, 9], flagsets=(0, 3), root_mode="gen"),
             J("independent", "indep-T6-file-r16-skip10", "T6", [12, 12, 11], flagsets=(3,), source="file", read=16, skip=10), J("headers-only", "headers-only-T4", "T4", [9, 10, 8, 11]),
             J("headers-only", "headers-only-T6", "T6", [12, 7])]
 
